@@ -39,3 +39,8 @@ CHECKS["C14"] = dict(
  text="Repro.tla is a self-composition (two runs in lock-step, independent wall clocks): TLC shows the 2-safety invariant image_A = image_B for all clock schedules when every stamp is a function of SOURCE_DATE_EPOCH, and finds the diverging schedule as soon as one operation reads the clock. Binding: TLC-generated FAT behaviours are executed twice in separate child processes > 2.1 s apart, on volumes at different start offsets, for four epoch classes; the SHA-256 of the volume range after every call is compared by Repro_Trace (first diverging call is named). Tables: every PartTable tuple is written twice and rewritten after being read; PartTable_Trace judges P_C14.",
  note="Trusted: TLC, SHA-256 prefix as byte identity, zero-filled background device. FAT12/16/32 on five volume shapes (thorough).",
  technique="TLA+ self-composition (2-safety) + paired executions in separate processes + trace validation")
+CHECKS["C17"] = dict(
+ level="model_checking",
+ text="Lru.tla is a PlusCal transcription of lru.go with one label per lock operation / observable step. TLC explores every interleaving of 2 readers x 2 Gets + resizer (quick, 1.4e5 states; thorough adds 3 readers) for deadlock, structure, bound, returned data and lock discipline, and termination under weak fairness. Binding: TLC -simulate emits complete interleavings which are FORCED on real goroutines through gates compiled into lru.go (tag verif): one release = one spec step, and the real cache state (keys, LRU order, which blocks hold data, maxBlocks) is compared with the spec state after every step; free-running stress runs on a real squashfs image (cache sizes 0/1 block/few/default, concurrent SetCacheSize, ReadAt yields, GOMAXPROCS 1..16) compare every goroutine's bytes with the known content in a -race binary.",
+ note="Hooks: add-only gate calls in filesystem/squashfs/lru.go, no-op without the verif tag. Un-gated accesses (GetCacheSize reads maxBlocks unlocked) are outside the model; the race detector is auxiliary. A divergence between code and spec that does not break the property is MODEL-DRIFT (exit 2).",
+ technique="PlusCal spec + TLC interleaving exploration + TLC-generated schedules forced on real goroutines via gates + race-detector stress")
